@@ -52,7 +52,7 @@ def run_online(driver, backend, nsteps, hook=None, tid=0, src="random"):
             steps.append(st)
             if hasattr(driver, "feedback"):
                 driver.feedback(op, res)
-            if res["exc"] == "RequestTimeout" or "err" in obs or impl.TIMEOUTS[0] > t_before:
+            if res["exc"] in ("RequestTimeout", "RequestRunaway") or "err" in obs or impl.TIMEOUTS[0] > t_before:
                 break      # a hung or failing index is not driven further
             if op["op"] in ("Reopen", "Recreate") and res["exc"]:
                 break      # the index could not be opened again: nothing left to drive
@@ -121,7 +121,7 @@ def run_online_multi(driver, roles, nsteps, hook=None, tid=0, src="random", pair
                 logs[j].append(st)
                 if j == 0 and hasattr(driver, "feedback"):
                     driver.feedback(op, res)
-                if res["exc"] == "RequestTimeout" or "err" in obs:
+                if res["exc"] in ("RequestTimeout", "RequestRunaway") or "err" in obs:
                     alive = False
                 if eff["op"] in ("Reopen", "Recreate") and res["exc"]:
                     alive = False
